@@ -152,6 +152,21 @@ Exercised(cfg, st, req, out) ==
     [] Primary = "C17" -> Log[l].eq = 1
     [] OTHER -> TRUE
 
+(* "SNAP": the projection of the real per-interface record (guarded hook lltd_verif_iface_view_get) after *)
+(* the request must be one of the abstract states the properties allow - compared at once, not only when   *)
+(* a later reaction reveals it.  Mapper identity and the observation set are compared; they are exactly    *)
+(* the state every later reply-or-silence and QueryResp is a function of.                                 *)
+SeeSet(s) == {[rs |-> SubSeq(s.see[i], 1, 6), es |-> SubSeq(s.see[i], 7, 12), ed |-> SubSeq(s.see[i], 13, 18)] : i \in 1..Len(s.see)}
+AgreeSnap(nx, s) ==
+  IF nx.havoc THEN TRUE
+  ELSE IF s.has = 0 THEN ~nx.mapper.known /\ nx.obs = {}
+  ELSE /\ nx.mapper.known = (s.known # 0)
+       /\ nx.mapper.known => nx.mapper.real = s.real
+       /\ s.nlist = Len(s.see) => nx.obs = SeeSet(s)
+       /\ s.nsee = s.nlist                                  \* the record's own count is right
+(* C09 at the level of the state: after a topology Reset the record is indistinguishable from a fresh one *)
+FreshSnap(s) == s.has = 0 \/ (s.known = 0 /\ s.seq = 0 /\ s.gt = 0 /\ s.gq = 0 /\ s.icon = 0 /\ s.nsee = 0 /\ s.nlist = 0)
+
 TReq ==
   LET ev  == Log[l]
       cfg == cfgs[ev.ifc]
@@ -164,7 +179,9 @@ TReq ==
      /\ Chk("C04") => FixedOK(aux[ev.ifc], out)
      /\ PipeOK(ev)
      /\ Chk("C10") => PeerReportOK(req, aux[ev.ifc], out)
+     /\ (Chk("C09") /\ IsTopoReset(req) /\ FaultOf(ev) = 0) => FreshSnap(ev.st)
      /\ \E nx \in NextStates(cfg, st, req, out, FaultOf(ev), ev.gf) :
+          /\ Chk("SNAP") => AgreeSnap(nx, ev.st)
           /\ sts' = [sts EXCEPT ![ev.ifc] = nx]
           /\ (Exercised(cfg, st, req, out) => TLCSet(2, TLCGet(2) \cup {l}))
      /\ aux' = [aux EXCEPT ![ev.ifc] = AuxNext(ev, req, aux[ev.ifc], out)]
